@@ -32,13 +32,17 @@ const (
 type Parser struct {
 	fset     *token.FileSet
 	packages map[string]*types.Package
+	// selectors that collectDependencies wrote in place of dot-imported identifiers, with the path of
+	// the package they name: an expression shared by several injectors (a Set variable) is visited again
+	qualified map[*ast.SelectorExpr]string
 }
 
 // NewParser creates a new parser instance.
 func NewParser() *Parser {
 	return &Parser{
-		fset:     token.NewFileSet(),
-		packages: make(map[string]*types.Package),
+		fset:      token.NewFileSet(),
+		packages:  make(map[string]*types.Package),
+		qualified: make(map[*ast.SelectorExpr]string),
 	}
 }
 
@@ -793,6 +797,20 @@ func (p *Parser) getVarDecl(pkg *packages.Package, obj *types.Var) ast.Expr {
 func (p *Parser) collectDependencies(expr ast.Expr, typeInfo *types.Info, imports map[string]*Import, varPool *VarPool) (ast.Expr, map[string]*Import) {
 	referencedImports := make(map[string]*Import)
 	ast.Inspect(expr, func(n ast.Node) bool {
+		if sel, ok := n.(*ast.SelectorExpr); ok {
+			// a qualifier written by an earlier visit of this expression (it has no type information)
+			if pkgPath, ok := p.qualified[sel]; ok {
+				if imp, ok := imports[pkgPath]; ok {
+					if x, ok := sel.X.(*ast.Ident); ok {
+						x.Name = imp.Name
+					}
+					referencedImports[pkgPath] = imp
+				}
+				return false
+			}
+			return true
+		}
+
 		ident, ok := n.(*ast.Ident)
 		if !ok {
 			return true
@@ -859,7 +877,9 @@ func (p *Parser) collectDependencies(expr ast.Expr, typeInfo *types.Info, import
 			return true
 		}
 
-		c.Replace(&ast.SelectorExpr{X: ast.NewIdent(imp.Name), Sel: ast.NewIdent(ident.Name)})
+		sel := &ast.SelectorExpr{X: ast.NewIdent(imp.Name), Sel: ast.NewIdent(ident.Name)}
+		p.qualified[sel] = obj.Pkg().Path()
+		c.Replace(sel)
 		referencedImports[obj.Pkg().Path()] = imp
 		return false
 	}, nil)
